@@ -157,6 +157,7 @@ package keystore
 // as a precondition: putEncryptedPubKey is the only writer); each record read is decoded with the writer's layout
 //@ func fetchEncryptedPubKey
 //@   props C12 C03 C19
+//@   theory strlen
 //@   requires b != nil
 //@   requires forall qs_ string :: has(bmap(b), qs_) ==> len(qs_) == 8
 //@   loop#1 invariant forall qi_ int :: 0 <= qi_ && qi_ < len(entries) ==> entries[qi_] != nil && len(entries[qi_].Key) == 8
